@@ -530,11 +530,12 @@ def UF.intOr (d : Int) : UF Int → Int
   | .val v => v
   | _ => d
 
-/-- `parseStatusStringFromUnstructured`: a present field of another type fails the assertion `value.(string)` -/
-def UF.str? : UF String → Option String
-  | .absent => some ""
-  | .val s => some s
-  | .wrongType => none
+/-- `parseStatusStringFromUnstructured`: a present field of another JSON type (number, bool, object — a custom resource
+    whose CRD does not pin the type) is treated as absent: `if s, ok := value.(string); ok { return s }; return ""` -/
+def UF.strOr : UF String → String
+  | .absent => ""
+  | .val s => s
+  | .wrongType => ""
 
 def stsInfo (kind : String) (s : Sts) : Option Info :=
   match s.replicas with
@@ -543,7 +544,7 @@ def stsInfo (kind : String) (s : Sts) : Option Info :=
                      replicas := r, inProgress := s.m.inProgress, updateRevision := s.updateRevision,
                      stableRevision := s.currentRevision, updatedReplicas := s.updatedReplicas, statusReplicas := s.statusReplicas }
 
-/-- `ParseWorkload` by dynamic type; `none` = panic (unsupported type, nil replicas, string assertion) -/
+/-- `ParseWorkload` by dynamic type; `none` = panic (nil replicas) -/
 def parseCloneSet (cs : CloneSet) : Option Info :=
   match cs.replicas with
   | none => none
@@ -563,13 +564,12 @@ def parseDaemonSet (ds : DaemonSet) : Option Info :=
          replicas := ds.desired, inProgress := ds.m.inProgress, updateRevision := ds.daemonSetHash,
          stableRevision := "", updatedReplicas := ds.updated, statusReplicas := ds.desired }
 
+/-- `ParseWorkload` of an unstructured object never panics: every field has a default -/
 def parseUnstr (u : Unstr) : Option Info :=
-  match u.updateRevision.str?, u.currentRevision.str? with
-  | some up, some cur =>
-    some { name := u.m.name, kind := u.gvk.kind, generation := u.m.generation, observedGeneration := u.observedGeneration.intOr 0,
-           replicas := u.specReplicas.intOr 1, inProgress := u.m.inProgress, updateRevision := up, stableRevision := cur,
-           updatedReplicas := u.updatedReplicas.intOr 0, statusReplicas := u.statusReplicas.intOr 0 }
-  | _, _ => none
+  some { name := u.m.name, kind := u.gvk.kind, generation := u.m.generation, observedGeneration := u.observedGeneration.intOr 0,
+         replicas := u.specReplicas.intOr 1, inProgress := u.m.inProgress, updateRevision := u.updateRevision.strOr,
+         stableRevision := u.currentRevision.strOr, updatedReplicas := u.updatedReplicas.intOr 0,
+         statusReplicas := u.statusReplicas.intOr 0 }
 
 /-- the part of `getStatefulSetLikeWorkload` after `ParseWorkload` -/
 def stsLikeOf (i : Info) : Out :=
